@@ -573,6 +573,13 @@ class System:
         for c in self._g.successor_indices(eidx):
             if not self._g[c]._component_type in comp._child_types:
                 raise ValueError("New component does not allow the existing childs!")
+        # can only have one pmux
+        if (
+            comp._component_type == _ComponentTypes.PMUX
+            and self._g[eidx]._component_type != _ComponentTypes.PMUX
+            and self._get_pmux() != -1
+        ):
+            raise ValueError("a system can only have one PMux")
         # source can only be changed to source
         if self._g[eidx]._component_type == _ComponentTypes.SOURCE:
             if not isinstance(comp, Source):
